@@ -237,6 +237,40 @@ Theorem int_equals_its_decimal_string : forall z,
 Proof. exact VariantSpecProofs.int_equals_its_decimal_string. Qed.
 Print Assumptions int_equals_its_decimal_string.
 
+(* ---- (5) what the property text decides (round 5): the expected observation of the property oracle shows `?` for a
+   conversion / comparison outside str_fits / veq_pinned; the reference functions to_int .. to_u64 / veq (and the model's
+   m_to_* / meq, proved equal to them above) keep the code's choice there, which the model/implementation correspondence
+   compares.  These theorems delimit the open region: it never contains the comparison with a copy, scalars, strings, or
+   decimal strings the target type can hold; it is exactly out-of-range decimal strings and maps whose key sets agree in
+   another insertion order. ---- *)
+Theorem text_decides_equality_with_a_copy : forall v, veq_pinned v v = true /\ veq v v = Some true.
+Proof. exact VariantSpecProofs.text_decides_equality_with_a_copy. Qed.
+Print Assumptions text_decides_equality_with_a_copy.
+
+Theorem conversion_open_only_for_out_of_range_strings : forall lo hi v,
+  str_fits lo hi v = false -> exists s, v = VStr s /\ (str_value s < lo \/ hi <= str_value s)%Z.
+Proof. exact VariantSpecProofs.str_fits_false. Qed.
+Print Assumptions conversion_open_only_for_out_of_range_strings.
+
+Theorem in_range_decimal_strings_are_decided : forall lo hi z,
+  (lo <= z < hi)%Z -> str_fits lo hi (VStr (dec_Z z)) = true.
+Proof. exact VariantSpecProofs.str_fits_dec_Z. Qed.
+Print Assumptions in_range_decimal_strings_are_decided.
+
+Theorem text_decides_plain_comparisons :
+  (forall s1 s2, veq_pinned (VS s1) (VS s2) = true) /\
+  (forall a b, veq_pinned (VStr a) (VStr b) = true) /\
+  (forall z, (-2147483648 <= z < 2147483648)%Z ->
+     veq_pinned (VS (SInt z)) (VStr (dec_Z z)) = true /\ veq_pinned (VStr (dec_Z z)) (VS (SInt z)) = true).
+Proof. exact VariantSpecProofs.text_decides_plain_comparisons. Qed.
+Print Assumptions text_decides_plain_comparisons.
+
+Theorem permuted_maps_left_open : forall k ks vs ks' vs',
+  length vs = length vs' -> keys_permuted ks ks' = true ->
+  veq_pinned (VNode k ks vs) (VNode k ks' vs') = false.
+Proof. exact VariantSpecProofs.veq_pinned_permuted_maps. Qed.
+Print Assumptions permuted_maps_left_open.
+
 (* ---- non-vacuity: a concrete history with sharing, nesting and a copy-on-write step ---- *)
 (* ex_l0 / ex_cow are defined in VariantMain.v *)
 (* after ex_l0: the string block is held twice (both list entries), the list block four times
@@ -332,3 +366,26 @@ Example ex_transcribed_observers :
    meq_top H (HB 0) (HS (SInt 12)) = Some true /\ meq_top H (HS (SInt 12)) (HB 0) = Some true /\
    meq_top H (HB 0) (HS (SBool false)) = Some false /\ meq_top H (HB 0) (HS SNull) = Some false).
 Proof. repeat split; try (vm_compute; reflexivity). vm_compute. discriminate. Qed.
+
+
+(* round 5: the open region is inhabited on both sides.  "99999999999999999999999": no 32/64-bit type holds it, the
+   reference (= the code) answers -1 / 2^63-1; "-5" is decided for the signed and open for the unsigned conversions;
+   {a:1,b:2} against {b:2,a:1} is open (the reference says different), against {a:1,c:2} decided (different), against
+   {a:1,b:3} decided (different), against itself decided (equal) *)
+Example ex_text_open :
+  (let big := VStr [57;57;57;57;57;57;57;57;57;57;57;57;57;57;57;57;57;57;57;57;57;57;57] in
+  let m5 := VStr [45; 53] in
+  let mp ks a b := VNode KMap ks [VS (SInt a); VS (SInt b)] in
+  let ab := mp [[97]; [98]] 1 2 in
+  (int_pinned big = false /\ to_int big = Some (-1) /\ i64_pinned big = false /\ to_i64 big = Some 9223372036854775807 /\
+   u64_pinned big = false) /\
+  (int_pinned m5 = true /\ to_int m5 = Some (-5) /\ uint_pinned m5 = false /\ u64_pinned m5 = false /\ i64_pinned m5 = true) /\
+  (veq_pinned (VS (SInt (-1))) big = false /\ veq (VS (SInt (-1))) big = Some true /\ veq_pinned big (VS (SInt 7)) = false /\
+   veq_pinned (VS (SDbl 1 0)) big = true /\ veq_pinned (VS (SBool true)) big = true) /\
+  (veq_pinned ab (mp [[98]; [97]] 2 1) = false /\ veq ab (mp [[98]; [97]] 2 1) = Some false) /\
+  (veq_pinned ab (mp [[97]; [99]] 1 2) = true /\ veq ab (mp [[97]; [99]] 1 2) = Some false) /\
+  (veq_pinned ab (mp [[97]; [98]] 1 3) = true /\ veq ab (mp [[97]; [98]] 1 3) = Some false) /\
+  (veq_pinned ab ab = true /\ veq ab ab = Some true) /\
+  (veq_pinned (VNode KList [] [ab; big]) (VNode KList [] [mp [[98]; [97]] 2 1; big]) = false) /\
+  (veq_pinned (VNode KList [] [VS (SInt 1); ab]) (VNode KList [] [VS (SInt 2); mp [[98]; [97]] 2 1]) = true))%Z.
+Proof. vm_compute. repeat split. Qed.
